@@ -63,4 +63,13 @@ PROPS = {
         'not_covered': ['that ids returned belong to the expression and that re-brailling is free of side effects on the tree (rule evaluation, data-nemeth-frac-level)', 'guess_child_node_ltr/rtl search arithmetic', 'the `?` after find_navigation_node (returns before restoring; suspected, no API-level failing input found)'],
         'explanation': 'highlight algebra + purity frame of the cursor-routing query',
     },
+    'C03': {
+        'verus': ['U03c'],
+        'kani': ['U03a'],
+        'technique': 'Verus contracts (representation invariant of the shift/reduce stack, loop invariant, frame) on the real reduce_stack / reduce_stack_one_time / StackInfo methods / is_nary family extracted from src/canonicalize.rs; Kani over all op_type words for the OperatorInfo form predicates (thorough tier)',
+        'level_text': 'unbounded proof of the precedence comparison and stack discipline of the operator-precedence parser: every row closed by reduce_stack binds strictly tighter than the incoming operator and closing stops exactly at a row that does not; priorities below are framed; two operands are never added in a row (assert discharged from the invariant); n-ary grouping only joins operators of one priority; form predicates proved for all 2^32 flag words',
+        'level_note': 'assumed: sxd_document facade (append_child/children/remove_from_parent), children of a row are elements, + and - (and the two times operators) share a priority in operator-info.in, pointer identity of static dictionary entries; canonicalize_mrows_in_mrow itself (implied-operator choice, fence matching, shift_stack) is DOM code and not covered, nor is the uniqueness-of-parse claim',
+        'not_covered': ['canonicalize_mrows_in_mrow, shift_stack, determine_vertical_bar_op, find_operator (DOM + dictionary lookup)', 'chemistry re-parse (chemistry.rs)', 'uniqueness of the parse for plain rows'],
+        'explanation': 'precedence comparison and stack discipline of the row parser',
+    },
 }
